@@ -15,6 +15,9 @@ var (
 // ParseSEINalu - parse SEI NAL unit (incl header) and return messages given SPS.
 // Returns sei.ErrRbspTrailingBitsMissing if the NALU is missing the trailing bits.
 func ParseSEINalu(nalu []byte, sps *SPS) ([]sei.SEIMessage, error) {
+	if len(nalu) < 2 { // Two-byte NAL unit header
+		return nil, ErrNotSEINalu
+	}
 	switch GetNaluType(nalu[0]) {
 	case NALU_SEI_PREFIX, NALU_SEI_SUFFIX:
 	default:
